@@ -123,6 +123,11 @@ static inline iora_lst_it iora_map1_lst_find(const iora_map1_lst *m, ListenerId 
 
 typedef struct UdpEngine { TransportConfig _config; AtomicStats _atomicStats; int _epollFd; iora_mutex _cbMutex; Callbacks _cbs; iora_mutex _sessionRwMutex;
   iora_map1_lst _listeners; iora_map1_sess _sessions; iora_map1_peer _peerIndex; iora_map1_tags _tags; SessionId _nextSessionId; } UdpEngine;
+/* R11 lock guards, sequential model.  `std::lock_guard<std::mutex> g(M);` / `std::unique_lock<std::shared_mutex> g(M);` -> IORA_LOCK_GUARD(g, M);
+ * the unit plugin inserts IORA_UNLOCK_GUARD(g, M); at the end of the guard's block.  Direct flag access on purpose: the pointer-carrying
+ * iora_ulock of iora_monitor.h costs ~20 s of solver time per guard under DFCC (measured), this form 0.1 s. */
+#define IORA_LOCK_GUARD(g, M) do { IORA_ASSERT(!(M).held, "LK1 mutex is not already held by this thread when it is locked (self-deadlock)"); (M).held = 1; } while (0)
+#define IORA_UNLOCK_GUARD(g, M) do { (M).held = 0; } while (0)
 #define IORA_NO_LOCK_HELD(e) (!(e)->_cbMutex.held && !(e)->_sessionRwMutex.held)
 /* a witness session map only ever lives inside a UdpEngine (container-of; a pointer field would not survive CBMC's value-set analysis) */
 static inline bool iora_sess_wlock_held(const iora_map1_sess *m)
